@@ -44,11 +44,15 @@ type TraceCase struct {
 
 func procMatrix() []procConfig {
 	n := execgen.NumCPU()
+	// shard-specific CPU sets, so that parallel shards do not pile up on the same cores
+	sh := evid.Shard()
 	four := "0-3"
-	if n < 4 {
+	if n >= 4*(sh+1) {
+		four = fmt.Sprintf("%d-%d", 4*sh, 4*sh+3)
+	} else if n < 4 {
 		four = fmt.Sprintf("0-%d", n-1)
 	}
-	one := fmt.Sprint(n - 1)
+	one := fmt.Sprint((n - 1 - sh%n + n) % n)
 	var out []procConfig
 	for _, g := range []int{1, 2, 16} {
 		for _, c := range []string{one, four, ""} {
@@ -112,7 +116,7 @@ func TestC33(t *testing.T) {
 
 	rnd := evid.Rand(33)
 	items := execgen.FullCorpus()
-	items = append(items, execgen.Generated(rnd, evid.N(7, 60))...)
+	items = append(items, execgen.Generated(rnd, evid.N(7, 24))...)
 	var mine []execgen.Item
 	for i, it := range items {
 		if i%evid.Shards() == evid.Shard() {
@@ -165,6 +169,9 @@ func TestC33(t *testing.T) {
 		for _, c := range matrix {
 			perm := rnd.Perm(len(items))
 			chunk := (len(items) + 3) / 4
+			if chunk > 14 {
+				chunk = 14
+			}
 			for len(perm) > 0 {
 				n := chunk
 				if n > len(perm) {
